@@ -3298,7 +3298,14 @@ impl<'a> Visitor<'a, '_, Error> for JSONValidator<'a> {
     }
 
     if let Value::Object(_) = &self.json {
-      return self.validate_object_value(value);
+      // Only a member key is looked up in the object; a literal value used as
+      // a type never matches an object
+      if self.state.is_member_key {
+        return self.validate_object_value(value);
+      }
+
+      self.add_error(format!("expected value {}, got object", value));
+      return Ok(());
     }
 
     // .lt .le .gt .ge .ne compare numbers by value, whatever the class (unsigned,
